@@ -10,7 +10,7 @@ Variable decode : list (list byte) -> option (list byte).
 Variable decode1 : list byte -> option (list byte).
 
 Variable early : option nat.
-Notation recv_v2 := (recv_v2 digest H deq decode early).
+Notation recv_v2 := (recv_v2_sched digest H deq decode early).   (* = recv_v2_old: the code before d144b66, any schedule *)
 Notation recv_v1 := (recv_v1 digest H deq decode1).
 
 (* the frames and digest line the receiver consumed *)
@@ -34,14 +34,14 @@ Fixpoint md5_of (ls : list (line digest)) : option digest :=
    digest of w, and EITHER the file holds w and |w| is the announced size, OR the acknowledger won
    the race (early = Some k): the stream is longer than announced and the file holds only its first
    k bytes, size <= k <= |w| *)
-Lemma recv_v2_sound : forall ls size acc written,
+Lemma recv_v2_sched_sound : forall ls size acc written,
   recv_v2 size acc ls = Accept written ->
   exists w, decode (acc ++ frames_of ls) = Some w /\ md5_of ls = Some (H w) /\
     ((written = w /\ Z.of_nat (length w) = size) \/
      (exists k, early = Some k /\ written = firstn k w /\
                 (0 <= size < Z.of_nat (length w))%Z /\ (size <= Z.of_nat k)%Z /\ (k <= length w)%nat)).
 Proof.
-  induction ls as [|l ls IH]; intros size acc written A; cbn [Protocol.recv_v2] in A; [discriminate|].
+  induction ls as [|l ls IH]; intros size acc written A; cbn [Protocol.recv_v2_sched] in A; [discriminate|].
   destruct l as [f|d| |]; try discriminate.
   - destruct f as [|b f].
     + destruct (decode acc) as [w|] eqn:D; [|discriminate].
@@ -104,17 +104,17 @@ Definition collision_free_on (src w : list byte) : Prop := H w = H src -> w = sr
 
 (* protocol >= 2.  Two sufficient conditions, each closing the race: the saver's check decides
    (early = None), or the SIZE message that was delivered is the true one. *)
-Theorem recv_v2_no_silent_no_race : forall ls size src w,
+Theorem recv_v2_sched_no_silent_no_race : forall ls size src w,
   early = None ->
   recv_v2 size [] ls = Accept w ->
   (forall d, md5_of ls = Some d -> unforged src w d) -> collision_free_on src w -> w = src.
 Proof.
-  intros ls size src w E A U C. destruct (recv_v2_sound ls size [] w A) as (w' & _ & M & [[-> _]|(k & Ek & _)]).
+  intros ls size src w E A U C. destruct (recv_v2_sched_sound ls size [] w A) as (w' & _ & M & [[-> _]|(k & Ek & _)]).
   - apply C. exact (U _ M eq_refl).
   - rewrite E in Ek. discriminate.
 Qed.
 
-Theorem recv_v2_no_silent_true_size : forall ls size src written,
+Theorem recv_v2_sched_no_silent_true_size : forall ls size src written,
   size = Z.of_nat (length src) ->
   recv_v2 size [] ls = Accept written ->
   (* the two digest hypotheses, about the stream the frames decode to *)
@@ -122,11 +122,61 @@ Theorem recv_v2_no_silent_true_size : forall ls size src written,
   (forall w, decode (frames_of ls) = Some w -> collision_free_on src w) -> written = src.
 Proof.
   intros ls size src written Es A U C.
-  destruct (recv_v2_sound ls size [] written A) as (w & D & M & [[-> _]|(k & _ & _ & [_ Lt] & _)]); cbn [app] in D.
+  destruct (recv_v2_sched_sound ls size [] written A) as (w & D & M & [[-> _]|(k & _ & _ & [_ Lt] & _)]); cbn [app] in D.
   - apply (C _ D). exact (U _ _ D M eq_refl).
   - (* the stream is the source (digest), hence as long as announced: no room for the race *)
     assert (w = src) by (apply (C _ D); exact (U _ _ D M eq_refl)). subst w. lia.
 Qed.
+
+End ProtocolProofs.
+
+(* ---------- the code as it is: the ctx.succ branch of recvFileDataV2 waits for the saver ---------- *)
+Lemma succ_waits_saver_src_ok : Consts.c02_succ_waits_saver = true. Proof. reflexivity. Qed.
+
+Section ProtocolFixed.
+Variable digest : Type.
+Variable H : list byte -> digest.
+Variable deq : digest -> digest -> bool.
+Hypothesis deq_spec : forall a b, deq a b = true <-> a = b.
+Variable decode : list (list byte) -> option (list byte).
+Variable early : option nat.
+
+Lemma recv_v2_eq : recv_v2 digest H deq decode early = recv_v2_sched digest H deq decode None.
+Proof. unfold recv_v2. rewrite succ_waits_saver_src_ok. reflexivity. Qed.
+
+Lemma recv_v2_old_eq : recv_v2_old digest H deq decode early = recv_v2_sched digest H deq decode early.
+Proof. reflexivity. Qed.
+
+(* acceptance: the stream in front of the finish flag decodes to exactly what the file holds, it is as
+   long as announced, and the MD5 line is its digest - for EVERY schedule *)
+Lemma recv_v2_sound : forall ls size acc w,
+  recv_v2 digest H deq decode early size acc ls = Accept w ->
+  decode (acc ++ frames_of digest ls) = Some w /\ Z.of_nat (length w) = size /\ md5_of digest ls = Some (H w).
+Proof.
+  intros ls size acc w A. rewrite recv_v2_eq in A.
+  destruct (recv_v2_sched_sound digest H deq deq_spec decode None ls size acc w A) as (w' & D & M & [[-> S]|(k & Ek & _)]);
+    [auto | discriminate].
+Qed.
+
+Theorem recv_v2_no_silent : forall ls size src w,
+  recv_v2 digest H deq decode early size [] ls = Accept w ->
+  (forall d, md5_of digest ls = Some d -> unforged digest H src w d) -> collision_free_on digest H src w -> w = src.
+Proof.
+  intros ls size src w A U C. destruct (recv_v2_sound ls size [] w A) as (_ & _ & M).
+  apply C. exact (U _ M eq_refl).
+Qed.
+End ProtocolFixed.
+
+Section ProtocolProofs2.
+Variable digest : Type.
+Variable H : list byte -> digest.
+Variable deq : digest -> digest -> bool.
+Hypothesis deq_spec : forall a b, deq a b = true <-> a = b.
+Variable decode1 : list byte -> option (list byte).
+Notation recv_v1 := (recv_v1 digest H deq decode1).
+Notation unforged := (unforged digest H).
+Notation collision_free_on := (collision_free_on digest H).
+Notation recv_v1_sound := (recv_v1_sound digest H deq deq_spec decode1).
 
 Theorem recv_v1_no_silent : forall fuel ls size src w,
   recv_v1 fuel size [] ls = Accept w ->
@@ -191,4 +241,4 @@ Proof.
     destruct (IH rest mine S) as (d & rest' & -> & Ed). exists d, rest'. auto.
 Qed.
 
-End ProtocolProofs.
+End ProtocolProofs2.
